@@ -333,6 +333,31 @@ func init() {
 			rest := &SliceV{Elem: el, Len: restLen, Cap: restLen, Alts: []SliceAlt{{Cond: c.True(), Loc: &Loc{Obj: o}, Off: bv64(c, 0)}}}
 			return &TupleV{Vs: []Value{rest, errv}}
 		},
+		"context.WithTimeout": func(e *Exec, st *State, f *ssa.Function, args []Value, pos token.Pos) Value {
+			c := e.C
+			d := args[1].(Scalar).T
+			ng := map[string]Value{}
+			for k, v := range st.ghost {
+				ng[k] = v
+			}
+			now, ok := ng["now"].(Scalar)
+			if !ok {
+				now = Scalar{T: c.Fresh("ghost_now", smt.BV(64)), Typ: intTyp}
+				e.addAxioms(c.BVSle(bv64(c, 0), now.T), c.BVSle(now.T, c.BVC(1<<61, 64)))
+				ng["now"] = now
+			}
+			ng["deadline"] = Scalar{T: c.BVAdd(now.T, d), Typ: intTyp}
+			ng["start"] = now
+			st.ghost = ng
+			ctx := e.fresh(f.Signature.Results().At(0).Type(), "ctx").(*IfaceV)
+			e.addAxioms(c.Not(e.ifaceNil(ctx)))
+			cancel := &FuncV{ID: c.Fresh("cancel", refSort)}
+			e.addAxioms(c.Neq(cancel.ID, c.BVC(0, 64)))
+			return &TupleV{Vs: []Value{ctx, cancel}}
+		},
+		"time.After": func(e *Exec, st *State, f *ssa.Function, args []Value, pos token.Pos) Value {
+			return Scalar{T: e.C.App("timer_after", refSort, args[0].(Scalar).T), Typ: f.Signature.Results().At(0).Type()}
+		},
 		"errors.As": func(e *Exec, st *State, f *ssa.Function, args []Value, pos token.Pos) Value {
 			// true iff some error in err's chain has the target's element type
 			errv, ok := args[0].(*IfaceV)
